@@ -558,9 +558,15 @@ class GroupBy:
             return
 
         if self._group_key_pointers is not None:
-            chunks = [
-                p[k] for p, k in zip(self._group_key_pointers, self._group_ikey.chunks)
-            ]
+            chunks = []
+            for p, k in zip(self._group_key_pointers, self._group_ikey.chunks):
+                k = np.asarray(k)
+                # null keys (-1) stay null: indexing the pointer with -1 would
+                # silently give them the last label of the chunk
+                codes = np.full(len(k), -1, dtype=np.int64)
+                has_key = k >= 0
+                codes[has_key] = p[k[has_key]]
+                chunks.append(codes)
             self._group_key_pointers = None
         elif keep_chunked:
             # no pointers to unify, but we want to keep chunked so do nothing
